@@ -52,6 +52,12 @@ def interval(t):
     if t[0] == "ifexp":
         ia, ib = interval(t[1]), interval(t[2])
         if ia and ib:
+            test = t[3] if len(t) > 3 else None
+            zero = ("const", 0)
+            if ia[0] == 0 and test in (t[1], ("cmp", "!=", t[1], zero), ("cmp", ">", t[1], zero)):
+                ia = (1, ia[1])        # `x if x else c` / `x if x != 0 else c`: the first arm is taken only when x is not 0
+            if ib[0] == 0 and test in (("cmp", "==", t[2], zero), ("not", t[2])):
+                ib = (1, ib[1])        # `c if x == 0 else x`
             return (min(ia[0], ib[0]), max(ia[1], ib[1]))
     return None
 
